@@ -119,15 +119,15 @@ impl RdfStore {
         #[cfg(grafeo_verif)]
         grafeo_common::verif::yield_point("rdf.insert.after_contains");
 
-        // Insert into primary storage
-        {
-            let mut triples = self.triples.write();
-            if !triples.insert(Arc::clone(&triple)) {
-                return false;
-            }
+        // Insert into primary storage and keep its write lock until the three indexes are
+        // updated, so that a concurrent `remove` of the same triple cannot run between the
+        // primary insert and the index inserts (lock order: triples, subject, predicate, object)
+        let mut triples = self.triples.write();
+        if !triples.insert(Arc::clone(&triple)) {
+            return false;
         }
         #[cfg(grafeo_verif)]
-        grafeo_common::verif::yield_point("rdf.insert.after_primary");
+        grafeo_common::verif::yield_point("held:rdf.insert.primary");
 
         // Update indexes
         {
@@ -137,8 +137,6 @@ impl RdfStore {
                 .or_default()
                 .push(Arc::clone(&triple));
         }
-        #[cfg(grafeo_verif)]
-        grafeo_common::verif::yield_point("rdf.insert.after_subject");
 
         {
             let mut predicate_index = self.predicate_index.write();
@@ -147,8 +145,6 @@ impl RdfStore {
                 .or_default()
                 .push(Arc::clone(&triple));
         }
-        #[cfg(grafeo_verif)]
-        grafeo_common::verif::yield_point("rdf.insert.after_predicate");
 
         if self.config.index_objects {
             let mut object_index = self.object_index.write();
@@ -159,6 +155,7 @@ impl RdfStore {
                     .push(triple);
             }
         }
+        drop(triples);
 
         true
     }
@@ -167,17 +164,14 @@ impl RdfStore {
     ///
     /// Returns `true` if the triple was found and removed.
     pub fn remove(&self, triple: &Triple) -> bool {
-        // Remove from primary storage
-        let removed = {
-            let mut triples = self.triples.write();
-            triples.remove(triple)
-        };
-
-        if !removed {
+        // Remove from primary storage; the write lock is kept until the three indexes are
+        // updated (see `insert`)
+        let mut triples = self.triples.write();
+        if !triples.remove(triple) {
             return false;
         }
         #[cfg(grafeo_verif)]
-        grafeo_common::verif::yield_point("rdf.remove.after_primary");
+        grafeo_common::verif::yield_point("held:rdf.remove.primary");
 
         // Update indexes
         {
@@ -189,8 +183,6 @@ impl RdfStore {
                 }
             }
         }
-        #[cfg(grafeo_verif)]
-        grafeo_common::verif::yield_point("rdf.remove.after_subject");
 
         {
             let mut predicate_index = self.predicate_index.write();
@@ -201,8 +193,6 @@ impl RdfStore {
                 }
             }
         }
-        #[cfg(grafeo_verif)]
-        grafeo_common::verif::yield_point("rdf.remove.after_predicate");
 
         if self.config.index_objects {
             let mut object_index = self.object_index.write();
@@ -215,6 +205,7 @@ impl RdfStore {
                 }
             }
         }
+        drop(triples);
 
         true
     }
